@@ -428,4 +428,53 @@ Respellings(d, l, k) ==
 RespellStutters ==
   \A k \in 1..Len(line) : \A l2 \in Respellings(def, line, k) :
       Outcome(Run(InitSt(def), l2), env) = Out
+(* ------------------------------------------------------------------ C14: dynamic completion *)
+\* a partially typed last item: fresh "", "-", "--prefix" (cs = characters after the dashes, possibly
+\* none), an exact short name, or the beginning of a word (command name)
+RECURSIVE ConcatAll(_)
+ConcatAll(cs) == IF cs = <<>> THEN "" ELSE Head(cs) \o ConcatAll(Tail(cs))
+PartialText(p) == CASE p.k = "fresh" -> "" [] p.k = "dash" -> "-" [] p.k = "long" -> "--" \o ConcatAll(p.cs)
+                    [] p.k = "short" -> p.s [] p.k = "word" -> ConcatAll(p.cs)
+Pref(it) == IF it.longs # <<>> THEN it.longs[1] ELSE it.shorts[1]      \* the spelling completion inserts
+NameMatches(it, p) == CASE p.k \in {"fresh", "dash"} -> TRUE
+                        [] p.k = "long"  -> it.longs # <<>> /\ IsPrefix(p.cs, it.lchars[1])
+                        [] p.k = "short" -> it.shorts # <<>> /\ it.shorts[1] = p.s
+                        [] OTHER -> FALSE
+CmdMatches(c, p) == \/ p.k = "fresh"
+                    \/ p.k = "word" /\ (IsPrefix(p.cs, c.nchars[1]) \/ (c.shorts # <<>> /\ p.cs = <<c.shorts[1]>>))
+LevelCmds(lvl) == IF lvl.tail.kind = "cmd" THEN RangeOf(lvl.tail.cmds) ELSE {}
+\* upper bound: visible names of the active or an enclosing level that match what was typed, values of
+\* the user's completer for the argument being typed, and the `--` hint of strict positionals
+MayOffer(s, p) ==
+  LET lvls == {s.frames[k].lvl : k \in DOMAIN s.frames} IN
+  UNION {{Pref(l.named[k]) : k \in {k \in DOMAIN l.named : ~l.named[k].hidden /\ NameMatches(l.named[k], p)}} : l \in lvls}
+  \cup UNION {{c.names[1] : c \in {c \in LevelCmds(l) : CmdMatches(c, p)}} : l \in lvls}
+  \cup (IF s.pending # "" THEN RangeOf(ItemById(Cur(s).lvl, s.pending).completer) ELSE {})
+  \cup {"--"}
+\* lower bound, for a freshly typed prefix: every visible name of the active level that extends it and
+\* whose item has not already been given
+MustOffer(s, p) ==
+  IF s.pending # "" \/ s.posOnly THEN {}
+  ELSE IF p.k = "word" THEN   \* the beginning of a subcommand name of the active level
+       {c.names[1] : c \in {c \in LevelCmds(Cur(s).lvl) : IsPrefix(p.cs, c.nchars[1])}}
+  ELSE IF p.k \notin {"fresh", "dash", "long"} THEN {}
+  ELSE LET f == Cur(s) IN
+       (IF p.k = "fresh" THEN {c.names[1] : c \in LevelCmds(f.lvl)} ELSE {}) \cup
+       {Pref(f.lvl.named[k]) : k \in {k \in DOMAIN f.lvl.named :
+            /\ ~f.lvl.named[k].hidden /\ NameMatches(f.lvl.named[k], p)
+            /\ ~(SingleUse(f.lvl.named[k]) /\ f.acc[f.lvl.named[k].id] # <<>>)}}
+\* partial items worth asking about for a definition
+Partials(d) ==
+  {[k |-> "fresh"], [k |-> "dash"], [k |-> "long", cs |-> <<>>]}
+  \cup UNION {UNION {{[k |-> "long", cs |-> SubSeq(l.named[j].lchars[1], 1, n)] : n \in {1, Len(l.named[j].lchars[1]) - 1} \ {0}}
+                      : j \in {j \in DOMAIN l.named : l.named[j].longs # <<>>}} : l \in AllLevels(d)}
+  \cup UNION {{[k |-> "short", s |-> l.named[j].shorts[1]] : j \in {j \in DOMAIN l.named : l.named[j].shorts # <<>>}} : l \in AllLevels(d)}
+  \cup UNION {UNION {{[k |-> "word", cs |-> SubSeq(c.nchars[1], 1, n)] : n \in {1, Len(c.nchars[1])}} : c \in LevelCmds(l)} : l \in AllLevels(d)}
+\* states in which completion is asked: a line that can still become a sentence
+Viable(s) == /\ s.dead = "" /\ ~s.helpAt.set /\ ~s.verAt.set /\ ~s.outside /\ ~s.ambig /\ ~s.frozen /\ ~s.posOnly
+             /\ \A k \in DOMAIN s.frames : \A j \in DOMAIN s.frames[k].lvl.named :
+                   LET it == s.frames[k].lvl.named[j]  occ == s.frames[k].acc[it.id] IN
+                   /\ SingleUse(it) => Len(occ) <= 1
+                   /\ it.kind = "arg" => \A i \in DOMAIN occ : ~BadValue(it, occ[i])
+CompletionSandwich == \A p \in Partials(def) : MustOffer(st, p) \subseteq MayOffer(st, p)
 =============================================================================
